@@ -133,3 +133,4 @@ def run(P, R, tier):
 
 
 EXPLANATION += " Added after the seeded rounds: (DTYPE.raw) no product / square of the samples is computed in the dtype of the input array; (OWN.iadd-alias) `a += b` stores no array of b into a; (OPT) default statistics fields are selected when the argument is absent, not when it is given; (COVER.fold / COVER.pairs) the M-step folds every block's statistics, and a neighbour-pairing reduction keeps the unpaired element."
+EXPLANATION += ' Tree-shaped folds of the block statistics are decided by COVER (every element added exactly once, for every number of blocks).'
